@@ -77,6 +77,16 @@ def posmc_spaces(prop, tier):
             bfs(["startpos"], 3 if q else 5)
             bfs([n for n in all_seed_names if n != "startpos"], 2 if q else 3)
 
+    # positions reached by real play on one engine object (do_move / undo_move side effects)
+    if prop in ("C01", "C02", "C04", "C07", "C15", "C17", "C18"):
+        for n in all_seed_names:
+            big = n in ("moves218", "ten_queens", "ten_knights", "san_queens", "san_knights", "kiwipete", "perft4", "perft4m", "perft5", "perft6",
+                        "middlegame1", "middlegame2", "pins", "double_check2", "prop_c17", "startpos")
+            d = (2 if big else 3) if (q or very_heavy or heavy) else (3 if big else 4)
+            if prop == "C17" and big and q:
+                d = 1
+            jobs.append(["tree|%s|%d" % (S[n], d)])
+
     # S2 small-scope placements
     def sig(spec, nsh=1):
         if nsh == 1:
